@@ -322,9 +322,9 @@ func TestVerifC32(t *testing.T) {
 	thorough := vTier() == "thorough"
 	// longest strings: the AVM maximum (4096) in the thorough tier; the model's positional decoding of
 	// a 32768-bit number is quadratic, so the quick tier uses 512-byte strings for the value-level ops
-	big := 512
+	bigLen := 512
 	if thorough {
-		big = maxStringSize
+		bigLen = maxStringSize
 	}
 
 	// ---- every opcode at every version that has it, once in each mode (smoke grid)
@@ -659,8 +659,8 @@ func TestVerifC32(t *testing.T) {
 		for i := 0; i < 2*nRand; i++ {
 			e.auto(rnd, o, vC32RandBytes(rnd, 120), vC32RandBytes(rnd, 120))
 		}
-		e.auto(rnd, o, rnd.Bytes(big), rnd.Bytes(big-96))
-		e.auto(rnd, o, rnd.Bytes(1), rnd.Bytes(big))
+		e.auto(rnd, o, rnd.Bytes(bigLen), rnd.Bytes(bigLen-96))
+		e.auto(rnd, o, rnd.Bytes(1), rnd.Bytes(bigLen))
 	}
 	for _, a := range bys {
 		e.auto(rnd, ops["bnot"], a)
@@ -668,7 +668,7 @@ func TestVerifC32(t *testing.T) {
 	for i := 0; i < 2*nRand; i++ {
 		e.auto(rnd, ops["bnot"], vC32RandBytes(rnd, 150))
 	}
-	e.auto(rnd, ops["bnot"], rnd.Bytes(big))
+	e.auto(rnd, ops["bnot"], rnd.Bytes(bigLen))
 
 	// ---- getbit / setbit / getbyte / setbyte
 	for _, tgt := range []uint64{0, 1, 1 << 63, math.MaxUint64, rnd.U64(), rnd.U64()} {
@@ -715,8 +715,8 @@ func TestVerifC32(t *testing.T) {
 		e.auto(rnd, ops["setbyte"], b, bi, uint64(rnd.Intn(258)))
 	}
 	{
-		b := rnd.Bytes(big)
-		for _, idx := range []uint64{0, 7, 8, uint64(8*big - 1), uint64(8 * big), uint64(8*big - 8)} {
+		b := rnd.Bytes(bigLen)
+		for _, idx := range []uint64{0, 7, 8, uint64(8*bigLen - 1), uint64(8 * bigLen), uint64(8*bigLen - 8)} {
 			e.auto(rnd, ops["getbit"], b, idx)
 			e.auto(rnd, ops["setbit"], b, idx, uint64(1))
 		}
